@@ -359,7 +359,22 @@ def run(ctx):
             return
 
 
+_run_core = run
+
+
+def run(ctx):
+    _run_core(ctx)
+    if ctx.n_new() == 0 and ctx.driver_ok:
+        from harness.common import run_demo
+        if ctx.n_new() == 0:
+            run_demo(ctx, 'demo_tr4.py', [1 + ctx.seed], 'c06-code-vs-generated-vs-model-4',
+                     'BinaryCLT log_likelihood / mpe / message_passing / bfs order vs generated definitions vs model', env_extra=dict(DEMO_SECTIONS='b'))
+
+
 def replay(rep):
+    if rep['replay'].get('kind') == 'demo':
+        from harness.common import replay_demo
+        return replay_demo(rep['replay'])
     r = rep['replay']
     if r['kind'] == 'c06-clt':
         clt = BinaryCLT(r['scope'], root=r['scope'][r['pred'].index(-1)], tree=r['pred'], params=np.array(r['params'], dtype=np.float32))
